@@ -461,6 +461,7 @@ impl Worterbuch {
         live_only: bool,
     ) -> WorterbuchResult<(Receiver<StateEvent>, SubscriptionId)> {
         let path: Vec<KeySegment> = KeySegment::parse(&key);
+        check_multi_wildcard_position(&path, &key)?;
         let (tx, rx) = channel::<StateEvent>(self.config.channel_buffer_size);
         let subscription = SubscriptionId::new(client_id, transaction_id);
         let subscriber = Subscriber::new(
@@ -542,6 +543,7 @@ impl Worterbuch {
         live_only: bool,
     ) -> WorterbuchResult<(Receiver<PStateEvent>, SubscriptionId)> {
         let path: Vec<KeySegment> = KeySegment::parse(&pattern);
+        check_multi_wildcard_position(&path, &pattern)?;
         let (tx, rx) = channel(self.config.channel_buffer_size);
         let subscription = SubscriptionId::new(client_id, transaction_id);
         let subscriber = Subscriber::new(
@@ -1520,6 +1522,17 @@ fn check_for_read_only_key(key: &str, client_id: ClientId) -> WorterbuchResult<(
     // TODO potentially whitelist more fields clients may change
 
     Err(WorterbuchError::ReadOnlyKey(key.to_owned()))
+}
+
+/// A multi-level wildcard is only allowed as the last segment of a pattern. pget and pdelete reject
+/// other patterns while traversing the store, subscriptions have to be checked up front.
+fn check_multi_wildcard_position(path: &[KeySegment], pattern: &str) -> WorterbuchResult<()> {
+    if let Some((_, init)) = path.split_last()
+        && init.contains(&KeySegment::MultiWildcard)
+    {
+        return Err(WorterbuchError::IllegalMultiWildcard(pattern.to_owned()));
+    }
+    Ok(())
 }
 
 fn escape_wildcards(pattern: &str) -> String {
